@@ -368,6 +368,46 @@ test k_opt_b() {
     None -> False
   }
 }
+
+test k_prices_c() {
+  plen(prices) + first_value(prices) == 3
+}
+
+test k_grid_c() {
+  llen(grid) + llen(grid) == 4
+}
+
+test k_pp_c() {
+  pp.2nd.1st == 2
+}
+
+test k_maps_c() {
+  llen(maps) != 0
+}
+
+test k_mixed_c() {
+  llen(mixed.1st) + first_value(mixed.2nd) == 3
+}
+
+test k_tup_c() {
+  tup.1st + plen(tup.2nd) == 2
+}
+
+test k_built_c() {
+  plen(built) + first_value(built) == 6
+}
+
+test k_text_c() {
+  text == text
+}
+
+test k_blob_c() {
+  blob == blob
+}
+
+test k_opt_c() {
+  opt == opt
+}
 "#;
 
 pub const KIND_NAMES: [&str; 10] = ["prices", "grid", "pp", "maps", "mixed", "tup", "built", "text", "blob", "opt"];
@@ -601,10 +641,13 @@ pub fn run(tier: Tier, _replay: Option<String>) -> i32 {
     // under each trace level
     let n = TEST_NAMES.len();
     // constant-shape family first: the whole module, and the two tests of each constant
-    let kind_tests: Vec<String> = KIND_NAMES.iter().flat_map(|k| [format!("k_{k}_a"), format!("k_{k}_b")]).collect();
+    // (three tests per constant: the first reference fills the generator's cache, the second and
+    // third are served from it)
+    let kind_tests: Vec<String> = KIND_NAMES.iter().flat_map(|k| [format!("k_{k}_a"), format!("k_{k}_b"), format!("k_{k}_c")]).collect();
     let mut selections: Vec<(&str, Vec<&str>)> = vec![("kinds", kind_tests.iter().map(|s| s.as_str()).collect())];
     for k in 0..KIND_NAMES.len() {
-        selections.push(("kinds", vec![kind_tests[2 * k].as_str(), kind_tests[2 * k + 1].as_str()]));
+        selections.push(("kinds", vec![kind_tests[3 * k].as_str(), kind_tests[3 * k + 1].as_str(), kind_tests[3 * k + 2].as_str()]));
+        selections.push(("kinds", vec![kind_tests[3 * k + 1].as_str(), kind_tests[3 * k + 2].as_str()]));
     }
     let n_kind_selections = selections.len();
     selections.push(("coll", TEST_NAMES.to_vec()));
@@ -746,7 +789,7 @@ pub fn run(tier: Tier, _replay: Option<String>) -> i32 {
     run.set("evaluations", audits + thread_runs);
     run.set("distinct_nontrivial", outcomes_seen.len() as u64);
     run.set("excluded_by_reading", json!(["Fuzzer.type_info / stripped_type_info (Rc<Type> shared with the module AST): Test::run neither reads, clones nor drops them; they are used by reify on the main thread after the parallel section"]));
-    run.set("rule", "(a) ten module constants, one per shape of compiled constant (list of pairs, list of lists, pair of pairs, list of maps, pair of list and map, tuple holding a map, a map built by a function at compile time, string, bytes, option of a map), each referred to by two tests: the whole module and each constant's two tests; (b) every subset (size <= 2 quick / 3 thorough, plus the whole set) of 16 collision-prone tests (shared list/pair/nested/derived constants, a hoisted generic function, shared user types, shared fuzzers, expected failures) x trace levels: hook H2 hands over the Vec<Test> entering rayon; every Rc reachable from each test's programs is walked; invariants: pairwise disjoint, strong count = references from inside the test, no assertion left; each test's result must be the same in every selection; a spanning family is re-run with 1/2/3/16 threads in child processes; distinct_nontrivial = distinct result summaries");
+    run.set("rule", "(a) ten module constants, one per shape of compiled constant (list of pairs, list of lists, pair of pairs, list of maps, pair of list and map, tuple holding a map, a map built by a function at compile time, string, bytes, option of a map), each referred to by three tests: the whole module, each constant's three tests, and its last two; (b) every subset (size <= 2 quick / 3 thorough, plus the whole set) of 16 collision-prone tests (shared list/pair/nested/derived constants, a hoisted generic function, shared user types, shared fuzzers, expected failures) x trace levels: hook H2 hands over the Vec<Test> entering rayon; every Rc reachable from each test's programs is walked; invariants: pairwise disjoint, strong count = references from inside the test, no assertion left; each test's result must be the same in every selection; a spanning family is re-run with 1/2/3/16 threads in child processes; distinct_nontrivial = distinct result summaries");
     run.assume("rayon's indexed parallel iterator preserves order and runs each element's closure on some worker thread (its contract)");
     if audits < 20 || allocations == 0 {
         run.machinery_error("vacuous: fewer than 20 configurations audited");
